@@ -1,5 +1,6 @@
 import RagcModel.Model.Range
 import RagcModel.Lemmas.Range
+import RagcModel.Lemmas.ReaderLink
 /-!
 # C07 — range and length queries agree with full extraction
 
@@ -9,6 +10,13 @@ whole, every later one without its first `k` bytes — and the well-formedness `
 reader's view (`raw_length` = decoded length for every segment, later segments at least `k` long);
 both are defined in `Lemmas/Range.lean`, as are the example contigs `exSegs` (k = 2) and
 `exSegs3` (k = 3) used for non-vacuity.
+
+The last section ties these theorems to the reader-handle model of C08 (`Model/ReaderState.lean`)
+and to files that `create` wrote (`Lemmas/ReaderLink.lean`): `handle_range_eq`, `handle_length_eq`
+(every abstract archive on which the contig's descriptors load and are well formed) and
+`range_on_written_archive`, `range_concat_on_written_archive` (the archive content of
+`Writer.writeArchive`, where `WF` is discharged by the writer: `raw_length` = piece length, later
+pieces at least `k` long).
 -/
 namespace Ragc.Props.C07
 open Ragc.Range
@@ -209,5 +217,147 @@ theorem length_no_underflow (k : Nat) (segs : List Seg) (h : WF k segs)
     exact h2 t ht
 
 example : WF 2 exSegs ∧ contigLengthWrapping 2 (exSegs.map Seg.rawLen) = 11 := by decide
+
+/-! ## the handle model (C08) and archives that `create` wrote
+
+`ReaderLink.answer_contigRange` / `answer_contigLength` / `answer_getContig`: when every descriptor
+of the contig loads, the handle model's queries are `contigRange` / the wrapping length loop /
+`reconstruct` on the loaded, re-oriented views `viewOf`. With `WF` of the views the theorems above
+apply. -/
+
+section Handle
+open Ragc.ReaderLink
+
+/-- **Range query of the handle = slice of the full extraction of the handle**, on EVERY abstract
+archive: if the descriptors of contig `s/c` all load and the loaded views are well formed, then
+`get_contig` answers `full` and `get_contig_range(start, end)` answers its bases
+`[start, min(end, length))` — the checked (dev-profile) reading never panics there. -/
+theorem handle_range_eq (A : Ragc.ReaderState.Arch) (s c : List Nat) (start end_ : Nat)
+    (segs : List Ragc.Details.Seg)
+    (hd : Ragc.ReaderState.contigDesc A.samples (Ragc.ReaderState.table A) s c = some segs)
+    (hl : ∀ d ∈ segs, Loads A d) (hwf : WF A.k (segs.map (viewOf A))) :
+    Ragc.ReaderState.answer A (.getContig s c) = .ok (.bases (full A.k (segs.map (viewOf A)))) ∧
+    Ragc.ReaderState.answer A (.contigRange s c start end_) =
+      .ok (.bases (((full A.k (segs.map (viewOf A))).drop start).take
+        (min end_ (full A.k (segs.map (viewOf A))).length - start))) := by
+  constructor
+  · rw [answer_getContig A s c segs hd hl, reconstruct_eq_full A.k _ hwf.2]; rfl
+  · rw [answer_contigRange A s c start end_ segs hd hl, range_eq A.k _ start end_ hwf]; rfl
+
+/-- **Length query of the handle = length of the full extraction**, release (wrapping) reading, on
+every abstract archive with well-formed views and 64-bit sizes. -/
+theorem handle_length_eq (A : Ragc.ReaderState.Arch) (s c : List Nat) (segs : List Ragc.Details.Seg)
+    (hd : Ragc.ReaderState.contigDesc A.samples (Ragc.ReaderState.table A) s c = some segs)
+    (hwf : WF A.k (segs.map (viewOf A)))
+    (hraw : ∀ v ∈ segs.map (viewOf A), v.rawLen < 2 ^ 64)
+    (hlen : (full A.k (segs.map (viewOf A))).length < 2 ^ 64) :
+    Ragc.ReaderState.answer A (.contigLength s c) = .ok (.nat (full A.k (segs.map (viewOf A))).length) := by
+  rw [answer_contigLength A s c segs hd]
+  have h1 := length_eq A.k _ hwf
+  have h2 := length_no_underflow A.k _ hwf hraw hlen
+  rw [h1] at h2
+  injection h2 with h2
+  rw [← h2]
+
+-- non-vacuity: the two-batch archive of C08's examples; contig `A/x` = LZ reference + reverse-complemented delta
+example :
+    let A := Ragc.ReaderState.Arch.mk 3 [[65]] [[[⟨[120], [⟨16, 0, false, 5⟩, ⟨16, 1, true, 5⟩]⟩]]]
+      (fun g => if g = 16 then .ok [0, 1, 2, 3, 0] else .err) (fun _ => .err)
+      (fun g i r => if g = 16 ∧ i = 1 ∧ r = [0, 1, 2, 3, 0] then .ok [3, 3, 3, 0, 1] else .err)
+      (fun _ _ => .err) []
+    let segs : List Ragc.Details.Seg := [⟨16, 0, false, 5⟩, ⟨16, 1, true, 5⟩]
+    Ragc.ReaderState.contigDesc A.samples (Ragc.ReaderState.table A) [65] [120] = some segs ∧
+    WF A.k (segs.map (viewOf A)) ∧ full A.k (segs.map (viewOf A)) = [0, 1, 2, 3, 0, 0, 0] ∧
+    Ragc.ReaderState.answer A (.contigRange [65] [120] 2 6) = .ok (.bases [2, 3, 0, 0]) := by decide
+
+/-- **Range and length queries on an archive that `create` wrote.** Hypotheses of
+`Props.C08.reader_answers_input` (well-formed decisions, so `k ≥ 1`; input over the literal codes; the
+writer answers; distinct names). On the handle model over `ReaderLink.archOf cfg inp dec`, after ANY
+history `ops`, for every contig of every sample of the input and ALL `start`, `end`:
+
+* `get_contig_range(s, c, start, end)` = `ok` of the input contig's bases `[start, min(end, length))`;
+* `get_contig_length(s, c)` = `ok` of the input contig's length (wrapping reading: no wrap occurs).
+
+`WF` of `range_eq` / `length_eq` is discharged by the writer: every descriptor's `raw_length` is the
+length of the piece it addresses and every later piece is at least `k` long (tiling). -/
+theorem range_on_written_archive (cfg : Ragc.Writer.Cfg) (inp : List Ragc.Writer.Sample)
+    (dec : Ragc.Writer.Decisions) (zc : Nat → List Nat → List Nat) (bs : List Nat)
+    (hdec : Ragc.Writer.DecisionsOK cfg inp dec) (hcodes : Ragc.Writer.codesOK inp)
+    (hw : Ragc.Writer.writeArchive cfg inp dec zc = some bs) (hnd : NamesDistinct inp)
+    (ops : List Ragc.ReaderState.Op) (smp : Ragc.Writer.Sample) (hs : smp ∈ inp)
+    (ctg : Ragc.Writer.Contig) (hc : ctg ∈ smp.contigs) (start end_ : Nat) :
+    (Ragc.ReaderState.step (archOf cfg inp dec)
+        (Ragc.ReaderState.run (archOf cfg inp dec) (Ragc.ReaderState.fresh (archOf cfg inp dec)) ops).1
+        (.contigRange smp.name ctg.name start end_)).2
+      = .ok (.bases ((ctg.data.drop start).take (min end_ ctg.data.length - start))) ∧
+    (Ragc.ReaderState.step (archOf cfg inp dec)
+        (Ragc.ReaderState.run (archOf cfg inp dec) (Ragc.ReaderState.fresh (archOf cfg inp dec)) ops).1
+        (.contigLength smp.name ctg.name)).2
+      = .ok (.nat ctg.data.length) := by
+  have hok := Ragc.WriterLemmas.decOK_of cfg inp dec hdec
+  have hpl := planned_of_writeArchive cfg inp dec zc bs hw
+  have hwf := Ragc.ReaderLink.archOf_wf cfg inp dec hdec
+  have hinv := Ragc.ReaderState.inv_run (archOf cfg inp dec) hwf ops _ (Ragc.ReaderState.inv_fresh _)
+  obtain ⟨views, hvwf, hfull, hb, h32, hr, hlq⟩ :=
+    contig_range_view cfg inp dec hok hcodes hpl hnd smp hs ctg hc
+  constructor
+  · rw [(Ragc.ReaderState.step_spec _ _ _ hwf hinv).1, hr start end_, range_eq cfg.k views start end_ hvwf,
+      hfull]
+    rfl
+  · rw [(Ragc.ReaderState.step_spec _ _ _ hwf hinv).1, hlq]
+    have h1 := length_eq cfg.k views hvwf
+    have h2 := length_no_underflow cfg.k views hvwf
+      (fun v hv => Nat.lt_trans (hb v hv) (by decide)) (by rw [hfull]; exact Nat.lt_trans h32 (by decide))
+    rw [h1, hfull] at h2
+    injection h2 with h2
+    rw [← h2]
+
+-- Non-vacuity on the input of `read_write`'s example (hypotheses by `decide`; "the writer answers" by
+-- closed evaluation, as in `Props.C01`): a range across the junction of the two pieces of `A/c`
+-- (lengths 6 and 7, overlap 3; the second stored reverse-complemented), after a history.
+set_option maxRecDepth 100000 in
+example :
+    let A := archOf Ex.cfg Ex.inp Ex.dec
+    let st := (Ragc.ReaderState.run A (Ragc.ReaderState.fresh A) Ex.hist).1
+    (Ragc.ReaderState.step A st (.contigRange [65] [99] 4 9)).2 = .ok (.bases [0, 1, 2, 3, 0]) ∧
+    (Ragc.ReaderState.step A st (.contigRange [65] [99] 8 100)).2 = .ok (.bases [0, 1]) ∧
+    (Ragc.ReaderState.step A st (.contigLength [65] [99])).2 = .ok (.nat 10) ∧
+    (Ragc.ReaderState.step A st (.contigLength [65] [100])).2 = .ok (.nat 3) := by
+  have hsome : (Ragc.Writer.writeArchive Ex.cfg Ex.inp Ex.dec Ex.zc).isSome = true := by decide +kernel
+  obtain ⟨bs, hbs⟩ := Option.isSome_iff_exists.mp hsome
+  have h := fun ctg hc => range_on_written_archive Ex.cfg Ex.inp Ex.dec Ex.zc bs Ex.hyps.1 Ex.hyps.2.1 hbs
+    Ex.hyps.2.2.1 Ex.hist ⟨[65], [⟨[99], [0, 1, 2, 3, 0, 1, 2, 3, 0, 1]⟩, ⟨[100], [2, 4, 1]⟩]⟩ (by decide) ctg hc
+  exact ⟨(h ⟨[99], [0, 1, 2, 3, 0, 1, 2, 3, 0, 1]⟩ (by decide) 4 9).1,
+    (h ⟨[99], [0, 1, 2, 3, 0, 1, 2, 3, 0, 1]⟩ (by decide) 8 100).1,
+    (h ⟨[99], [0, 1, 2, 3, 0, 1, 2, 3, 0, 1]⟩ (by decide) 0 0).2,
+    (h ⟨[100], [2, 4, 1]⟩ (by decide) 0 0).2⟩
+
+/-- Adjacent ranges on a written archive concatenate, after any two histories (even on two
+different handles): `[a,b) ++ [b,c) = [a,c)`. -/
+theorem range_concat_on_written_archive (cfg : Ragc.Writer.Cfg) (inp : List Ragc.Writer.Sample)
+    (dec : Ragc.Writer.Decisions) (zc : Nat → List Nat → List Nat) (bs : List Nat)
+    (hdec : Ragc.Writer.DecisionsOK cfg inp dec) (hcodes : Ragc.Writer.codesOK inp)
+    (hw : Ragc.Writer.writeArchive cfg inp dec zc = some bs) (hnd : NamesDistinct inp)
+    (ops₁ ops₂ ops₃ : List Ragc.ReaderState.Op) (smp : Ragc.Writer.Sample) (hs : smp ∈ inp)
+    (ctg : Ragc.Writer.Contig) (hc : ctg ∈ smp.contigs) (a b c : Nat) (hab : a ≤ b) (hbc : b ≤ c) :
+    ∃ x y,
+      (Ragc.ReaderState.step (archOf cfg inp dec)
+        (Ragc.ReaderState.run (archOf cfg inp dec) (Ragc.ReaderState.fresh (archOf cfg inp dec)) ops₁).1
+        (.contigRange smp.name ctg.name a b)).2 = .ok (.bases x) ∧
+      (Ragc.ReaderState.step (archOf cfg inp dec)
+        (Ragc.ReaderState.run (archOf cfg inp dec) (Ragc.ReaderState.fresh (archOf cfg inp dec)) ops₂).1
+        (.contigRange smp.name ctg.name b c)).2 = .ok (.bases y) ∧
+      (Ragc.ReaderState.step (archOf cfg inp dec)
+        (Ragc.ReaderState.run (archOf cfg inp dec) (Ragc.ReaderState.fresh (archOf cfg inp dec)) ops₃).1
+        (.contigRange smp.name ctg.name a c)).2 = .ok (.bases (x ++ y)) := by
+  refine ⟨_, _, (range_on_written_archive cfg inp dec zc bs hdec hcodes hw hnd ops₁ smp hs ctg hc a b).1,
+    (range_on_written_archive cfg inp dec zc bs hdec hcodes hw hnd ops₂ smp hs ctg hc b c).1, ?_⟩
+  rw [(range_on_written_archive cfg inp dec zc bs hdec hcodes hw hnd ops₃ smp hs ctg hc a c).1,
+    take_drop_concat ctg.data a b c hab hbc]
+
+example : (2 : Nat) ≤ 5 ∧ (5 : Nat) ≤ 9 ∧ Ragc.Writer.DecisionsOK Ex.cfg Ex.inp Ex.dec ∧
+    Ragc.Writer.codesOK Ex.inp ∧ NamesDistinct Ex.inp := ⟨by decide, by decide, Ex.hyps.1, Ex.hyps.2.1, Ex.hyps.2.2.1⟩
+
+end Handle
 
 end Ragc.Props.C07
